@@ -766,6 +766,20 @@ def body_images(case, ctx):
         ref = mats[pos[s_]]
         ctx.small("automaton_accepted: the matrix of a word is its image",
                   (Mu - ref) / (1e-9 * max(1.0, float(np.max(np.abs(ref))))), 1.0, word=s_)
+    # the ball split by the state the word ends in (the cone type of the element): every
+    # element of the ball exactly once over all end states, state 0 (the start state: the
+    # identity alone) included
+    if len(list(sl.vertices())) <= 60:
+        seen = collections.Counter()
+        for v in sl.vertices():
+            _, wv = rep.automaton_accepted(sl, L, with_words=True, end_state=v,
+                                           edge_words=(S.width == 1))
+            seen.update(wv)
+        ctx.check(seen == collections.Counter(sl.enumerate_words(L)),
+                  "automaton_accepted(..., end_state=s) over all states s lists every accepted "
+                  "shortlex word exactly once", extra=sorted((seen - collections.Counter(
+                      sl.enumerate_words(L))).elements())[:5], matrix=S.m)
+        ctx.label("ball-split-by-end-state")
     ev = even_automaton(S, ctx, sl, True)
     if ev is not None and S.width == 1:
         Le = max(2, (L // 2))
